@@ -47,15 +47,15 @@ def _state(vals, n):
     return S
 
 
-def _put(store, name, body):
+def _put(store, name, body, etag=None):
     try:
-        store.import_one(name, None, [body], message="m")
+        store.import_one(name, None, [body], message="m", replace_etag=etag)
         return "ok"
     except Exception as e:
         return _store.classify(e)
 
 
-def body_uid_step(a0, a1, a2, b0, b1, b2, t1, u1, t2, u2):
+def body_uid_step(a0, a1, a2, b0, b1, b2, t1, u1, t2, u2, cond):
     kind, warm = ctx.PART
     n = ctx.b.n
     S0, S1 = _state([a0, a1, a2], n), _state([b0, b1, b2], n)
@@ -73,7 +73,9 @@ def body_uid_step(a0, a1, a2, b0, b1, b2, t1, u1, t2, u2):
     names = NAMES[:n] + [FRESH]
     name1, body1 = names[t1], _content(u1)
     want1, S2 = SP.put(S1, name1, body1)
-    got1 = _put(store, name1, body1)
+    # the web layer always passes the current etag when it overwrites an existing resource: cover both forms
+    etag1 = mstore.expected_etag(kind, S1[name1]) if (cond and name1 in S1) else None
+    got1 = _put(store, name1, body1, etag1)
     ok = got1 == want1 and mstore.agrees(kind, mstore.observe(store), S2)
     cls = ("warm" if warm else "cold") + ":" + want1
     if ok and ctx.b.two:
@@ -93,13 +95,13 @@ def body_uid_step(a0, a1, a2, b0, b1, b2, t1, u1, t2, u2):
 
 
 def h_uid_step(a0: int, a1: int, a2: int, b0: int, b1: int, b2: int, t1: int, u1: int,
-               t2: int, u2: int) -> bool:
+               t2: int, u2: int, cond: bool) -> bool:
     """
     pre: all(-1 <= v <= ctx.b.n + 2 for v in (a0, a1, a2, b0, b1, b2))
     pre: 0 <= t1 <= ctx.b.n and 0 <= t2 <= ctx.b.n and 0 <= u1 <= ctx.b.n + 2 and 0 <= u2 <= ctx.b.n + 2
     post: _
     """
-    return run(body_uid_step, a0, a1, a2, b0, b1, b2, t1, u1, t2, u2)
+    return run(body_uid_step, a0, a1, a2, b0, b1, b2, t1, u1, t2, u2, cond)
 
 
 # ------------------------------------------------------------------ ICalendarFile.get_uid on component trees
@@ -143,7 +145,9 @@ def real_uid_step(args, part):
     import shutil
     import tempfile
     import importlib
-    a0, a1, a2, b0, b1, b2, t1, u1, t2, u2 = args
+    a0, a1, a2, b0, b1, b2, t1, u1, t2, u2, cond = args
+    if cond:
+        return None
     part, warm = part
     args = [a0, a1, a2, b0, b1, b2, warm, t1, u1, t2, u2]
     n = ctx.b.n
